@@ -610,8 +610,8 @@ def _connfail(rng, mode, sample=None, n=2):
     return {"kind": "connfail", "mode": mode, "n": n, "ops": ops}
 
 
-def _fixed_round5(rng, tier):
-    full = tier not in ("quick",)
+def _fixed_round5(rng, tier, first=True):
+    full = tier not in ("quick",) and first      # every guarded method, twice, in all three modes: once per run
     return [_counts(rng, False), _counts(rng, True), _connfail(rng, "eof", None, 2 if full else 1),
             _connfail(rng, "reset", None if full else 30), _connfail(rng, "hang", None if full else 12)]
 
@@ -631,8 +631,8 @@ def generate(rng, tier, n):
     cases = []
     nb = 1 if tier in ("quick", "search") else max(2, n // 200)
     fixed = []
-    for _ in range(nb):
-        fixed += [_breaker(rng), _dead(rng, False), _dead(rng, True)] + [_sha(rng) for _ in range(4)] + _fixed_round4(rng) + _fixed_round5(rng, tier)
+    for k in range(nb):
+        fixed += [_breaker(rng), _dead(rng, False), _dead(rng, True)] + [_sha(rng) for _ in range(4)] + _fixed_round4(rng) + _fixed_round5(rng, tier, k == 0)
     cases.extend(fixed[:n])
     while len(cases) < n:
         x = rng.random()
